@@ -196,7 +196,8 @@ func init() {
 		},
 		Notes: []string{
 			"proved (unbounded): every packet written by sendPacket carries the channel's message type and id, a header length equal to 8 + len(body), the end-of-message flag exactly when the body is shorter than the current body size, and reaches the transport as header (big-endian length) followed by the body with earlier bytes of the wire untouched; a successful flush (sendPackets(false), SendRemainingPackets, SendPackage) leaves no message open on the wire (the last packet written carried the end-of-message flag), for every total length including exact multiples of the body size; every Package/FieldFmt/FieldData writer only appends to the channel's output stream",
-			"not mechanised: the byte-level equality between the concatenated packet bodies on the wire and the queue's output stream across several sendPackets calls, and the queue invariant at the deferred DiscardUntilCurrentPosition call in sendPackets (unclaimed obligations)",
+			"also proved: the transmit position ghost $sent (bytes of the queue's output stream handed to the transport) always equals the stream position of the first byte still queued ($base) after QueuePackage / sendPackets / Reset, every queued packet is sent at exactly the stream position where the previous one ended, the bytes written for a packet are the bytes of the queue's output stream at that position, and a successful flush has sent the whole stream ($sent == $w) and leaves the queue empty: nothing lost, duplicated or left behind",
+			"explicit assumption, visible as unclaimed obligations pre[sendPackets#1/size-tie] in QueuePackage and SendRemainingPackets: the queued packets were created with the packet size in force when they are sent (the packet size does not change while a message is queued); the content clause of the queue invariant at the deferred DiscardUntilCurrentPosition call is unclaimed",
 		},
 	}
 	readerFuncs := []string{
@@ -298,9 +299,10 @@ func init() {
 	properties["C04"] = &Property{
 		ID:    "C04",
 		Level: "other",
+		Lemmas: []string{`^asetypes\.(moneyRoundTrip|recompose32)$`},
 		Title: "Field values survive encoding and decoding unchanged",
 		Pkgs:  []string{"./asetypes", "./tds"},
-		Funcs: []string{`^\(asetypes\.DataType\)\.(GoValue|goValue)$`, `^\(\*tds\.fieldDataBase\)\.(readFrom|readFromStatus)$`, `^\(tds\.fieldDataBase\)\.(writeTo|writeToStatus)$`, `^\(\*tds\.fieldDataPrecisionScale\)\.ReadFrom$`},
+		Funcs: []string{`^\(asetypes\.DataType\)\.(GoValue|goValue|Bytes)$`, `^\(\*asetypes\.Decimal\)\.SetInt64$`, `^\(asetypes\.Decimal\)\.Int$`, `^\(\*tds\.fieldDataBase\)\.(readFrom|readFromStatus)$`, `^\(tds\.fieldDataBase\)\.(writeTo|writeToStatus)$`, `^\(\*tds\.fieldDataPrecisionScale\)\.ReadFrom$`},
 		After: func(P *Prog, rep *Report, tier string) {
 			runIsland(rep, P.repoDir, "value-codec", "asetypes", "c04_island_test.go", "TestIslandC04", c04bound, 300, "VERIF_TIER="+tier)
 			runIsland(rep, P.repoDir, "package-roundtrip", "tds", "c06_island_test.go", "TestIslandC06",
@@ -311,7 +313,8 @@ func init() {
 			"contracts of the BytesChannel (C15) for the field readers and writers",
 		},
 		Notes: []string{
-			"proved (unbounded): the safety obligations of the decoders (no index / slice / nil failure for any byte string of the declared length), that the field readers report a dry stream as ErrNotEnoughBytes, and that the field writers only append to the output stream",
+			"proved (unbounded): the safety obligations of the decoders (no index / slice / nil failure for any byte string of the declared length), that the field readers report a dry stream as ErrNotEnoughBytes, and that the field writers only append to the output stream; for MONEY / MONEYN(8): Bytes writes the eight bytes of the high word then the low word of the 1/10000 count (byte by byte, little-endian order), goValue decodes them to signed64(high * 2^32 + low), and the two arithmetic lemmas (byte recomposition, signed64(hi32(x) * 2^32 + lo32(x)) == x for every int64 x) close the round trip; NULL (nil) encodes to zero length",
+			"unclaimed in Bytes: obligations that only hold for well-typed client input (value of the Go type the data type expects, non-negative length)",
 			"bounded: exact round trip of every data type's values and of values travelling inside parameter packages, as listed in the bound",
 		},
 	}
@@ -320,7 +323,8 @@ func init() {
 		Level: "other",
 		Title: "Data type wire encodings match the TDS 5.0 layouts",
 		Pkgs:  []string{"./asetypes"},
-		Funcs: []string{`^\(asetypes\.DataType\)\.(GoValue|goValue)$`},
+		Funcs: []string{`^\(asetypes\.DataType\)\.(GoValue|goValue|Bytes)$`, `^\(\*asetypes\.Decimal\)\.SetInt64$`, `^\(asetypes\.Decimal\)\.Int$`},
+		Lemmas: []string{`^asetypes\.(moneyRoundTrip|recompose32)$`},
 		After: func(P *Prog, rep *Report, tier string) {
 			runIsland(rep, P.repoDir, "value-codec", "asetypes", "c04_island_test.go", "TestIslandC04", c04bound, 300, "VERIF_TIER="+tier)
 		},
@@ -329,7 +333,7 @@ func init() {
 			"encoding/binary, math/big, time are outside the generator: the layout claims are decided only on the bounded domain of the island (labelled bounded); for the calendar helpers the domain (every day of years 1..9999) is covered completely in the thorough tier",
 		},
 		Notes: []string{
-			"proved (unbounded): decoder safety for every byte string of the declared length",
+			"proved (unbounded): decoder safety for every byte string of the declared length; the MONEY layout (high word then low word of the signed 64-bit count, each little-endian) in both directions",
 			"bounded: byte-for-byte agreement of DataType.Bytes with the reference codec and agreement of GoValue with the reference decoding; TimeToMicroseconds / MicrosecondsToTime / DurationFromDateTime against own civil-date arithmetic for every day (thorough) or every third day (quick) of years 1..9999",
 		},
 	}
